@@ -587,4 +587,131 @@ def rule_report(ctx):
                         lambda i: True, 3)
 
 
-RULES = [rule_surv, rule_appear, rule_drop, rule_pre, rule_prelegs, rule_bestpair, rule_report]
+def _member_truth(test, case, names):
+    """truth value of a test made of `ix in X` / `ix not in X` (X one of the two operands), and/or/not,
+    under a case {operand name: bool}; None if the test is about something else"""
+    if isinstance(test, ast.BoolOp):
+        vals = [_member_truth(v, case, names) for v in test.values]
+        if any(v is None for v in vals):
+            return None
+        return all(vals) if isinstance(test.op, ast.And) else any(vals)
+    if isinstance(test, ast.UnaryOp) and isinstance(test.op, ast.Not):
+        v = _member_truth(test.operand, case, names)
+        return None if v is None else (not v)
+    if isinstance(test, ast.Compare) and len(test.ops) == 1 and isinstance(test.ops[0], (ast.In, ast.NotIn)) \
+            and isinstance(test.comparators[0], ast.Name) and test.comparators[0].id in names:
+        v = case[test.comparators[0].id]
+        return v if isinstance(test.ops[0], ast.In) else (not v)
+    return None
+
+
+def rule_merge(ctx):
+    """The annealing move evaluator re-implements the tree's survival rule for a *pair* of leg tables
+    (index -> how many of its appearances the operand already contains).  For an index on the left only, the
+    right only, or both, it is evaluated symbolically (counts a, b; dimension d) and compared with the
+    definition: merged count = a + b (a, b if one-sided); kept iff merged < appearances; the cost gets the
+    dimension exactly once; the size gets it iff kept; the stored count is the merged one."""
+    from ..engine.symbolic import Interp, Poly
+
+    r = RuleResult("C18-MERGE", "the move evaluator merges two leg tables by the tree's survival rule", 3)
+    f = ctx.p.func(C.ANNEAL, "compute_contracted_info")
+    params = [a.arg for a in f.node.args.args]
+    C.require(len(params) >= 4, "compute_contracted_info: parameters not recognised")
+    la_, lb_, app_, sz_ = params[:4]
+    rets = [n for n in f.node.body if isinstance(n, ast.Return) and isinstance(n.value, ast.Tuple) and len(n.value.elts) == 3]
+    C.require(rets, "compute_contracted_info: return (legs, cost, size) not found")
+    legs_nm, cost_nm, size_nm = [dotted(e) for e in rets[0].value.elts]
+    a, b, d, APP = Poly.sym("a"), Poly.sym("b"), Poly.sym("d"), Poly.sym("APP")
+    loops = [n for n in f.node.body if isinstance(n, ast.For)]
+    C.require(loops, "compute_contracted_info: loops over the operands' legs not found")
+    cases = {"left only": {la_: True, lb_: False}, "right only": {la_: False, lb_: True}, "both": {la_: True, lb_: True}}
+    merged_want = {"left only": a, "right only": b, "both": a + b}
+    per_case = {c: [] for c in cases}     # effects active in that case
+    for lp in loops:
+        it = lp.iter
+        tnames = [x.id for x in ast.walk(lp.target) if isinstance(x, ast.Name)]
+        C.require(isinstance(lp.target, ast.Tuple) and len(tnames) == 2, "compute_contracted_info: loop target not (index, count)")
+        ixn, cntn = tnames
+        # which cases can this loop see, and what the count variable holds in each
+        src = C.unparse(it)
+        binding = {}
+        if src == f"{la_}.items()":
+            binding = {"left only": a, "both": a}
+        elif src == f"{lb_}.items()":
+            binding = {"right only": b, "both": b}
+        elif isinstance(it, ast.Call) and isinstance(it.func, ast.Attribute) and it.func.attr == "items" and \
+                isinstance(it.func.value, ast.Dict) and all(k is None for k in it.func.value.keys):
+            order = [dotted(v) for v in it.func.value.values]
+            if set(order) == {la_, lb_}:
+                last = order[-1]
+                # dict display: the later mapping wins for a shared key
+                binding = {"left only": a, "right only": b, "both": (a if last == la_ else b)}
+        if not binding:
+            raise AnalysisError(f"compute_contracted_info: iteration source `{src}` not understood")
+        for cname, cnt in binding.items():
+            env = {cntn: cnt, f"{sz_}[{ixn}]": d, f"{app_}[{ixn}]": APP, f"{la_}[{ixn}]": a, f"{lb_}[{ixn}]": b}
+            it_ = Interp(env=env)
+            it_.watch = {cost_nm, size_nm}
+            for e in it_.run(lp.body):
+                active = True
+                for (txt, outcome), cv in zip(e.conds, e.cvals):
+                    tv = _member_truth(it_.tests[txt], cases[cname], (la_, lb_))
+                    if tv is not None and tv != outcome:
+                        active = False
+                if active:
+                    per_case[cname].append((e, it_))
+    for cname in cases:
+        k = ctx.key(f, "C18-MERGE", cname.replace(" ", "-"))
+        want = merged_want[cname]
+        probs = []
+        effs = per_case[cname]
+        # distinct execution paths are alternatives (kept / not kept); group by the survival outcome
+        def kept_of(e):
+            for (txt, outcome), cv in zip(e.conds, e.cvals):
+                if cv is not None and cv[1] in ("Lt", "LtE", "Gt", "GtE", "Eq", "NotEq") and cv[2] == APP:
+                    return (outcome, cv)
+            return None
+        costs = [e for e, _ in effs if e.kind == "aug" and e.target == cost_nm]
+        # the cost statement may appear once per path alternative; count per alternative
+        alts = {}
+        for e in costs:
+            ko = kept_of(e)
+            alts.setdefault(ko[0] if ko else "any", []).append(e)
+        for alt, es in alts.items():
+            if len(es) != 1 or es[0].op != "Mult" or es[0].value != d:
+                probs.append(f"the cost is multiplied by {[str(x.value) for x in es]} ({len(es)} time(s)) for such an index, expected d once")
+        if not costs:
+            probs.append("the dimension of such an index never enters the cost")
+        stores = [e for e, _ in effs if e.kind == "store" and e.target.startswith(f"{legs_nm}[")]
+        sizes = [e for e, _ in effs if e.kind == "aug" and e.target == size_nm]
+        for e in stores + sizes:
+            ko = kept_of(e)
+            if ko is None:
+                probs.append(f"`{C.unparse(e.node, 40)}` is not under the survival test")
+                continue
+            outcome, (lv, opn, rv) = ko
+            keeps = (opn == "Lt" and outcome) or (opn == "GtE" and not outcome) or (opn == "NotEq" and outcome) or (opn == "Eq" and not outcome)
+            if not keeps:
+                probs.append(f"`{C.unparse(e.node, 40)}` runs when the merged count has *reached* the number of appearances")
+            if lv != want:
+                probs.append(f"the count compared with the number of appearances is {lv}, expected {want}")
+        if not stores:
+            probs.append("a surviving index of this kind is never stored in the resulting legs")
+        for e in stores:
+            if e.value != want:
+                probs.append(f"the count stored for the surviving index is {e.value}, expected {want}")
+        for e in sizes:
+            if e.op != "Mult" or e.value != d:
+                probs.append(f"the size is changed by {e.op} {e.value}")
+        if stores and not sizes:
+            probs.append("a surviving index does not contribute its dimension to the size")
+        if len(stores) > 1 or len(sizes) > 1:
+            probs.append(f"such an index is handled {max(len(stores), len(sizes))} times")
+        if probs:
+            r.violation(k, f.loc, f"index on {cname}: " + "; ".join(dict.fromkeys(probs)))
+        else:
+            r.ok(k, f.loc, f"index on {cname}: merged count {want}, kept iff < appearances, cost *= d once, size *= d iff kept")
+    return r
+
+
+RULES = [rule_surv, rule_appear, rule_drop, rule_pre, rule_prelegs, rule_bestpair, rule_report, rule_merge]
